@@ -45,4 +45,14 @@ def join (sep : List Nat) : List (List Nat) → List Nat
   | [p] => p
   | p :: q :: r => p ++ sep ++ join sep (q :: r)
 
+/-- replace the first occurrence of `pat` (non-empty) by `rep` -/
+def replaceFirst (pat rep : List Nat) : List Nat → List Nat
+  | [] => []
+  | c :: r => if pat.isPrefixOf (c :: r) then rep ++ (c :: r).drop pat.length else c :: replaceFirst pat rep r
+
+/-- what `转换数值` leaves in the text it was applied to: the first `*^`, then the first `*10^`, become `e`
+(the observables of a text are a function of its current characters, so this is all a history needs) -/
+def numberRewrite (t : List Nat) : List Nat :=
+  replaceFirst [0x2A, 0x31, 0x30, 0x5E] [0x65] (replaceFirst [0x2A, 0x5E] [0x65] t)
+
 end ZnVerif.Spec.TextOps
